@@ -7,7 +7,8 @@ ASSUMPTIONS = [
     "INTERLEAVING LEMMA (stated, NOT machine-checked): an association thread is in AE.active_associations from before its check "
     "until it ends, so the established association whose check ran last saw all other established ones alive; with the per-call "
     "obligation (established only if the count, which includes the caller, is <= limit) at most `limit` are established at once",
-    "AE.active_associations returns the live association threads (threading.enumerate); not modelled",
+    "threading.enumerate() returns the live threads (library contract); AE.active_associations is proved to select exactly the "
+    "Association threads of this AE among them, whatever their state",
 ]
 NOT_DECIDED = ["all arrival patterns / interleavings of negotiation threads (thread schedules are outside function contracts)"]
 EXPLANATION = ("partial: the per-call limit check and rejection triple are proved for all inputs; the step to 'never more than N "
@@ -15,7 +16,7 @@ EXPLANATION = ("partial: the per-call limit check and rejection triple are prove
 
 
 def tasks(tier):
-    return [A.LimitTask("C14/")]
+    return [A.LimitTask("C14/"), A.ActiveAssociationsTask("C14/")]
 
 
 def replay(rec):
@@ -26,5 +27,5 @@ def replay(rec):
 LEVEL_TEXT = ("per call: the association is established only if the number of live acceptor associations (including the caller) is at "
               "most maximum_associations at the check, and over the limit the rejection is (transient, presentation, "
               "local-limit-exceeded); the concurrency step is a stated assumption, hence level 'other'.")
-LEVEL_NOTE = "trusted: pyvc, z3; interleaving lemma and AE.active_associations not machine-checked."
+LEVEL_NOTE = "trusted: pyvc, z3; interleaving lemma not machine-checked."
 TECHNIQUE = "deductive (per-call): effect-trace contract on the limit check in ACSE._negotiate_as_acceptor; schedule quantifier not decided"
